@@ -691,6 +691,19 @@ func (tb *TB) atomOfRes(g Guard, res func(ssa.Value) ssa.Value) Atom {
 			pol = !pol
 			continue
 		}
+		// a merge with one incoming value (the result of a spliced single-return helper)
+		if ph, ok := v.(*ssa.Phi); ok && len(ph.Edges) > 0 {
+			same := true
+			for _, e := range ph.Edges[1:] {
+				if e != ph.Edges[0] {
+					same = false
+				}
+			}
+			if same {
+				v = res(ph.Edges[0])
+				continue
+			}
+		}
 		break
 	}
 	switch x := v.(type) {
